@@ -24,25 +24,26 @@ def digest (rt : RT) : String :=
 def kindOf (rt : RT) (t : Nat) : String :=
   if t = 0 then
     match rt.client.pc with
-    | .idle => "start -" | .done => "- -" | .sleeping _ => "sleep -"
+    | .done => "- -" | .sleeping _ => "sleep -"
     | .stoStart _ => "yield sto.start" | .camStart _ => "yield cam.start" | .errCamStop _ => "yield cam.stop"
     | .cfgCamSet _ => "yield cam.set" | .cfgStoSet _ => "yield sto.set" | .cfgGetShape _ => "yield cam.get_shape"
     | .accLock .. | .flushRmapLock .. | .flushUnmapLock .. | .mapLock _ | .unmapLock .. => "lock -"
     | .accNotify .. | .flushRmapNotify .. | .flushUnmapNotify .. | .mapNotify _ | .unmapNotify _ => "notify -"
     | .createSnk _ | .createFlt _ | .createSrc _ => "create -"
     | .joinSrc _ | .joinFlt _ | .joinSnk _ => "join -"
+    | _ => "transient -"
   else match whoIs rt t with
   | none => "? ?"
   | some (s, .source) => match (getS rt s).src.pc with
     | .start => "start -" | .getShape => "yield cam.get_shape" | .wmapLock | .abortLock | .commitLock => "lock -"
     | .wmapWait => "wait -" | .wmapAsleep | .wmapWoken => "reacq -" | .getFrame => "yield cam.get_frame"
-    | .failStop | .camStop => "yield cam.stop" | .done => "- -"
+    | .failStop | .camStop => "yield cam.stop" | .done => "- -" | _ => "transient -"
   | some (s, .sink) => match (getS rt s).snk.pc with
     | .start => "start -" | .rmapLock | .runmapLock | .errAccLock | .errUnmapLock => "lock -"
     | .rmapNotify | .runmapNotify | .errAccNotify | .errUnmapNotify => "notify -"
-    | .append => "yield sto.append" | .sleep => "sleep -" | .stoStop => "yield sto.stop" | .done => "- -"
+    | .append => "yield sto.append" | .sleep => "sleep -" | .stoStop => "yield sto.stop" | .done => "- -" | _ => "transient -"
   | some (s, .filter) => match (getS rt s).flt.pc with
-    | .start => "start -" | .rmapLock => "lock -" | .rmapNotify => "notify -" | .sleep => "sleep -" | .done => "- -"
+    | .start => "start -" | .rmapLock => "lock -" | .rmapNotify => "notify -" | .sleep => "sleep -" | .done => "- -" | _ => "transient -"
 
 def parseCOp (t : String) : Option COp :=
   match (t.trimAscii.toString.splitOn " ").filter (· ≠ "") with
@@ -79,16 +80,17 @@ def runDecisions (sc : Scen) (ds : List Nat) : List String := Id.run do
   let fresh : Sys := (step (Sys.init sc.ring) .join).1
   let streams := sc.streams.map fun st => if st.valid then st else { st with sinkCh := fresh, filtCh := fresh }
   -- the client is already running when the window opens: it is parked at the first yield of its first call
-  let mut rt : RT := clientNext { streams := streams, client := { prog := sc.prog } }
+  let (rt0, o0) := clientBoot { streams := streams, client := { prog := sc.prog } }
+  let mut rt : RT := rt0
   let mut out : Array String := #["RUN"]
-  for l in rt.out do out := out.push l
+  for l in o0 do out := out.push l
   for t in ds do
     out := out.push s!"D {t} {kindOf rt t}"
     out := out.push (digest rt)
     match rtStep rt t with
     | none => out := out.push s!"NOT-ENABLED {t}"
-    | some rt' =>
-      for l in rt'.out do out := out.push l
+    | some (rt', o) =>
+      for l in o do out := out.push l
       rt := rt'
   out := out.push (digest rt)
   out := out.push "END"
